@@ -395,6 +395,44 @@ done:
   free(fill);
 }
 
+/* The record cannot be written: the framed writer must fail too and leave the output buffer (which may
+ * hold earlier, still unsent frames) exactly as it was - no stray length prefix, nothing truncated. */
+static void rt_tcp_failed_write(const rt_ctx_t *ctx, const ares_dns_record_t *R, size_t p, size_t consumed)
+{
+  ares_buf_t          *b = ares_buf_create();
+  unsigned char       *fill;
+  const unsigned char *data;
+  size_t               len = 0, i;
+  ares_status_t        st;
+  if (b == NULL) {
+    return;
+  }
+  fill = (unsigned char *)malloc(p + consumed + 1);
+  for (i = 0; i < p + consumed; i++) {
+    fill[i] = (unsigned char)(0xa0 + (i & 0x1f));
+  }
+  if (p + consumed) {
+    ares_buf_append(b, fill, p + consumed);
+  }
+  if (consumed) {
+    ares_buf_consume(b, consumed);
+  }
+  st = ares_dns_write_buf_tcp(R, b);
+  vh_count("rt_tcp_failed_writes");
+  if (st == ARES_SUCCESS) {
+    rt_violation(ctx, "tcpbuf:accepts-unwritable", "ares_dns_write failed but ares_dns_write_buf_tcp (p=%zu consumed=%zu) succeeded", p, consumed);
+  } else {
+    data = ares_buf_peek(b, &len);
+    if (len != p || (p && (data == NULL || memcmp(data, fill + consumed, p) != 0))) {
+      rt_violation(ctx, "tcpbuf:failed-write-changes-buffer",
+                   "ares_dns_write_buf_tcp returned %d but the output buffer went from %zu to %zu unread octets (p=%zu consumed=%zu)", (int)st, p, len, p,
+                   consumed);
+    }
+  }
+  free(fill);
+  ares_buf_destroy(b);
+}
+
 /* The round-trip oracle.  R is not modified. */
 static void rt_check(rt_ctx_t *ctx, const ares_dns_record_t *R, vh_rng_t *rng)
 {
@@ -417,6 +455,11 @@ static void rt_check(rt_ctx_t *ctx, const ares_dns_record_t *R, vh_rng_t *rng)
     char cn[48];
     snprintf(cn, sizeof(cn), "rt_write_status_%d", (int)st);
     vh_count(cn);
+    if (ctx->tcp_variants > 0) {
+      size_t p        = vh_chance(rng, 1, 3) ? 0 : ptab[vh_below(rng, sizeof(ptab) / sizeof(ptab[0]))];
+      size_t consumed = vh_chance(rng, 1, 2) ? 0 : ptab[vh_below(rng, 6)] + vh_below(rng, 3);
+      rt_tcp_failed_write(ctx, R, p, consumed);
+    }
     return;
   }
   vh_count("rt_written");
